@@ -117,6 +117,18 @@ class Scale:
             return a if a == b else ("unknown", None)
         if isinstance(n, ast.Tuple):
             return ("tuple", tuple(self.ex(e, env, fi, ctx) for e in n.elts))
+        if isinstance(n, (ast.GeneratorExp, ast.ListComp)) and len(n.generators) == 1 and not n.generators[0].ifs \
+                and isinstance(n.generators[0].target, ast.Name):
+            # element-wise construction over a pair such as the (quotient, remainder) of divmod: each element is evaluated
+            src = self.ex(n.generators[0].iter, env, fi, ctx)
+            if src[0] == "tuple" and isinstance(src[1], tuple):
+                out = []
+                for elem in src[1]:
+                    e2 = dict(env)
+                    e2[n.generators[0].target.id] = elem
+                    out.append(self.ex(n.elt, e2, fi, ctx + " [element %d]" % len(out)))
+                return ("tuple", tuple(out))
+            return ("unknown", None)
         if isinstance(n, ast.Call):
             return self.call(n, env, fi, ctx)
         return ("unknown", None)
@@ -246,6 +258,8 @@ class Scale:
             return args[1]
         if short in ("check_positive", "check_zero", "check_nonzero"):
             return ("LCB", 0)
+        if short in ("tuple", "list") and len(args) == 1 and args[0][0] == "tuple":
+            return args[0]
         if short == "isinstance":
             return ("bool", 0)
         if short == "bool":
@@ -628,6 +642,52 @@ def rule_integer_side(repo, rule):
                 "representable step: PrivVal(3) < PrivValFxp(3.5) yields 0", "intside/cmp/%s" % mn)
 
 
+def rule_fxp_comparisons(repo, rule):
+    """The six comparison operators of LinCombFxp test the relation they name between the REPRESENTATIONS s = self.lc and
+    o = _ensurefxp(other).lc (both at scale 2^r, so a strict comparison steps by one representation unit): either by
+    delegating `s <op> o` to the integer class or by a test gadget on a difference - compared as canonical affine relations."""
+    from ..relations import rel, gadget_relation, show, relations_when_true
+    from ..flatten import resolve_locals
+    from ..poly import P
+    ci = repo.cls(FX, "LinCombFxp")
+    OPS = {"__lt__": ast.Lt(), "__le__": ast.LtE(), "__gt__": ast.Gt(), "__ge__": ast.GtE(), "__eq__": ast.Eq(), "__ne__": ast.NotEq()}
+    for name, op in OPS.items():
+        fi = ci.methods.get(name)
+        if fi is None:
+            rule.violation("%s:1" % ci.module.relpath, ci.fq, name, "comparison operator missing", "fxpcmp/%s/missing" % name)
+            continue
+        s_, o_ = fi.params[0], fi.params[1]
+        env = {"%s.lc" % s_: P.sym("s")}
+        for conv in ("%s._ensurefxp(%s).lc" % (s_, o_), "LinCombFxp._ensurefxp(%s).lc" % o_, "cls._ensurefxp(%s).lc" % o_):
+            env[conv] = P.sym("o")
+        want = rel(op, P.sym("s"), P.sym("o"))
+        rets = [r for r in ast.walk(fi.node) if isinstance(r, ast.Return) and r.value is not None and norm(r.value) != "NotImplemented"]
+        if not rets:
+            rule.violation(fi.loc(), fi.fq, name, "comparison returns nothing", "fxpcmp/%s/ret" % name)
+            continue
+        for r in rets:
+            e = resolve_locals(fi.node, r.value)
+            got = gadget_relation(e, env)
+            neg = False
+            if got is None and isinstance(e, ast.UnaryOp) and isinstance(e.op, ast.Invert):
+                g0 = gadget_relation(e.operand, env)
+                if g0 is not None and g0[0] == "==0":
+                    got = ("!=0", g0[1])
+                elif g0 is not None and g0[0] == "!=0":
+                    got = ("==0", g0[1])
+            if got is None and isinstance(e, ast.Compare):
+                rr = relations_when_true(e, env)
+                got = rr[0] if rr and len(rr) == 1 else None
+            term = "%s returns %s: tests %s; the operator means %s" % (name, norm(e)[:80], show(got) if got else None, show(want))
+            if got is None:
+                rule.undecided(fi.loc(r), fi.fq, term, "comparison not interpretable as a relation between the representations")
+            elif got == want:
+                rule.ok(fi.loc(r), fi.fq, term)
+            else:
+                rule.violation(fi.loc(r), fi.fq, term, "the fixed-point comparison tests a different relation than `%s` on the represented "
+                               "numbers (off by one representation step, or the wrong direction)" % name.strip("_"), "fxpcmp/%s" % name)
+
+
 def check(repo, rep, tier):
     rep.explanation = ("A units analysis: every method of LinCombFxp is abstractly executed once per combination of operand "
                        "kinds (int, float, LinComb, LinCombBool, LinCombFxp; isinstance tests resolved from the kind) with each "
@@ -642,5 +702,7 @@ def check(repo, rep, tier):
     rule_reflected(repo, r2)
     r3 = rep.rule("R-C14-3", "the resolution is read at call time (holds for every resolution setting)", floor=1)
     config_read_at_call_time(repo, r3, FX, "resolution", "scaling")
+    r5 = rep.rule("R-C14-5", "fixed-point comparisons test the named relation between the two representations", floor=6)
+    rule_fxp_comparisons(repo, r5)
     r4 = rep.rule("R-C14-4", "the integer-secret class rejects or defers fixed-point operands (no unscaled arithmetic on v*2^r)", floor=6)
     rule_integer_side(repo, r4)
